@@ -251,6 +251,8 @@ def check_case(case):
             ok = out.stop < tol if solver == "FISTA" else out.stop <= tol
             if not ok:
                 n_incon += 1
+                if not tiny:
+                    classes.append(f"not-converged:{solver}/{fam}/{pen}")
                 continue
             ck = certificate_kind(solver, fam, pen)
             if solver == "FISTA" and ws == "fixpoint" and pen not in ("L1", "WeightedL1", "L1_plus_L2", "IndicatorBox", "PositiveConstraint", "L2"):
